@@ -411,6 +411,12 @@ def run(ctx):
         else:
             r.bad("clear", "matches_candidate_into does not clear the output vector", fn=f)
 
+    with ctx.rule("C12.CLASSRANGES", "every range of a class token is written into the regex as parsed (the class arm loops over "
+                  "Token::Class::ranges itself)", floor=1, kind="FLOW") as r:
+        from . import c05
+        c05.order_rule(r, facts.fn(G + "::glob::Tokens::tokens_to_regex"), G + "::glob::Token::Class", "ranges",
+                       "a range that is rewritten, merged or dropped on the way changes which characters the class matches; whether a "
+                       "rewriting keeps the set of characters cannot be decided from the shape of the code")
     with ctx.rule("C12.REGEX", "glob→regex: an arm per token; [^/] forms exactly under literal_separator", floor=11, kind="ARMS") as r:
         f = facts.fn(G + "::glob::Tokens::tokens_to_regex")
         eb = ExprBuilder(f)
